@@ -96,6 +96,14 @@ pub fn start(conf: &Conf, server_bin: &Option<String>) -> Result<Proc, String> {
             }
         };
         cmd.args(conf.args(port)).stdin(Stdio::null()).stdout(Stdio::null()).stderr(Stdio::null());
+        // the server must not outlive a harness that is killed or aborted by a sanitizer
+        unsafe {
+            use std::os::unix::process::CommandExt;
+            cmd.pre_exec(|| {
+                libc::prctl(libc::PR_SET_PDEATHSIG, libc::SIGKILL);
+                Ok(())
+            });
+        }
         let mut child = cmd.spawn().map_err(|e| e.to_string())?;
         let t0 = Instant::now();
         let mut up = false;
@@ -112,11 +120,14 @@ pub fn start(conf: &Conf, server_bin: &Option<String>) -> Result<Proc, String> {
             }
             std::thread::sleep(Duration::from_millis(30));
         }
-        let p = Proc { child, port };
+        let mut p = Proc { child, port };
         if up {
             // the probe connection must be gone before limits are measured
             std::thread::sleep(Duration::from_millis(100));
-            return Ok(p);
+            // a foreign listener on that port would have answered while our child failed to bind
+            if let Ok(None) = p.child.try_wait() {
+                return Ok(p);
+            }
         }
     }
     Err("server did not come up".into())
